@@ -26,7 +26,7 @@
 (***************************************************************************)
 EXTENDS Integers, FiniteSets, Sequences, TLC
 
-CONSTANTS Threads, Keys, Ranges, Capacity, FixDrift, WithEnv, FsExact,
+CONSTANTS Threads, Keys, Ranges, Capacity, FixDrift, WithEnv, FsExact, EarlyVerify,
           ILen(_)         \* length in bytes of the cache file of an item
 
 Item == Keys \X Ranges
@@ -93,7 +93,7 @@ OpenOutcome(t) ==
          ELSE (IF d = "good" THEN "ok" ELSE "mismatch")      \* validate_match always re-checks length and crc
 
 OpenWith(t, o) ==
-  /\ pc[t] = "open"
+  /\ pc[t] = "open" /\ ~(EarlyVerify /\ op[t].kind = "get" /\ disk[cur[t]] # "none")
   /\ o \in {"ok", "missing", "mismatch"}
   /\ IF o = "ok"
        THEN /\ verified' = IF op[t].kind = "get" /\ cur[t] \in tracked THEN verified \cup {cur[t]} ELSE verified
@@ -102,6 +102,21 @@ OpenWith(t, o) ==
   /\ UNCHANGED <<tracked, numItems, totalBytes, disk, mode, op, cur, todel, hist>>
 
 Open(t) == IF FsExact THEN OpenWith(t, OpenOutcome(t)) ELSE \E o \in {"ok", "missing", "mismatch"} : OpenWith(t, o)
+
+(* Negative control EarlyVerify: the shared verified flag is set before the checksum pass instead of after it
+   matched, as a separate step; a second reader that arrives in between skips the check and is served the bytes. *)
+PreVerify(t) ==
+  /\ EarlyVerify /\ pc[t] = "open" /\ op[t].kind = "get" /\ disk[cur[t]] # "none"
+  /\ pc' = [pc EXCEPT ![t] = IF cur[t] \in verified THEN "open2v" ELSE "open2u"]
+  /\ verified' = IF cur[t] \in tracked THEN verified \cup {cur[t]} ELSE verified
+  /\ UNCHANGED <<tracked, numItems, totalBytes, disk, mode, op, cur, todel, res, hist>>
+Open2(t) ==
+  /\ pc[t] \in {"open2v", "open2u"}
+  /\ LET d == disk[cur[t]]
+         o == IF d = "none" THEN "missing" ELSE IF pc[t] = "open2v" \/ d = "good" THEN "ok" ELSE "mismatch" IN
+     IF o = "ok" THEN Ret(t, IF d = "good" THEN "hit_good" ELSE "hit_bad") /\ UNCHANGED verified
+     ELSE Goto(t, "rmstate") /\ UNCHANGED <<verified, res>>
+  /\ UNCHANGED <<tracked, numItems, totalBytes, disk, mode, op, cur, todel, hist>>
 
 KeyHasItems(k) == \E i \in tracked : i[1] = k
 
@@ -234,7 +249,7 @@ DoPlant == \E i \in Item : \E kind \in {"bad", "badlen"} : Plant(i, kind)
 DoDeleteWhileOpen == \E i \in Item : DeleteWhileOpen(i)
 DoReopen == \E ld \in SUBSET Item : Reopen(ld)
 
-ThreadStep(t) == \/ DoStart(t) \/ DoFind(t) \/ Open(t) \/ RmState(t) \/ RmFile(t) \/ PWrite(t)
+ThreadStep(t) == \/ DoStart(t) \/ DoFind(t) \/ Open(t) \/ PreVerify(t) \/ Open2(t) \/ RmState(t) \/ RmFile(t) \/ PWrite(t)
                  \/ DoCommit(t) \/ DoDel(t) \/ PDone(t) \/ Fail(t)
 EClose == WithEnv /\ Close
 EDamage == WithEnv /\ DoDamage
